@@ -5,6 +5,7 @@ import (
 	"go/types"
 	"regexp"
 	"strings"
+	"sync"
 
 	"golang.org/x/tools/go/ssa"
 )
@@ -182,25 +183,30 @@ var (
 	reByte = regexp.MustCompile(`\bbyte\b`)
 	reRune = regexp.MustCompile(`\brune\b`)
 	reAny  = regexp.MustCompile(`\bany\b`)
-	typeKeyCache = map[types.Type]string{}
+	typeKeyCache sync.Map
 )
 
 // typeKey is a canonical name of a type (identical types give identical keys).
 func typeKey(t types.Type) string {
-	if k, ok := typeKeyCache[t]; ok {
-		return k
+	if k, ok := typeKeyCache.Load(t); ok {
+		return k.(string)
 	}
 	s := types.TypeString(t, func(p *types.Package) string { return p.Path() })
 	s = reByte.ReplaceAllString(s, "uint8")
 	s = reRune.ReplaceAllString(s, "int32")
 	s = reAny.ReplaceAllString(s, "interface{}")
-	typeKeyCache[t] = s
+	typeKeyCache.Store(t, s)
 	return s
 }
 
 // ---- engine-level value helpers (need the script for naming) ----
 
 func (e *Engine) zeroVal(t types.Type) Val {
+	if at, ok := under(t).(*types.Array); ok {
+		if es, ok := scalarSort(at.Elem()); ok {
+			return Sc{e.zeroArr(es, zeroTerm(es, at.Elem()), int(at.Len())), arrSort(SI64, es)}
+		}
+	}
 	if s, ok := scalarSort(t); ok {
 		return Sc{zeroTerm(s, t), s}
 	}
@@ -224,7 +230,7 @@ func (e *Engine) zeroVal(t types.Type) Val {
 	case *types.Array:
 		av := ArrayVal{}
 		e.forLeaves(t, nil, u.Elem(), func(path []pathElem, suffix, leaf string, lt types.Type) {
-			av.Leaves = append(av.Leaves, "((as const "+arrSort(SI64, leaf)+") "+zeroOfLeaf(leaf, suffix, lt)+")")
+			av.Leaves = append(av.Leaves, e.zeroArr(leaf, zeroOfLeaf(leaf, suffix, lt), int(u.Len())))
 			av.Sorts = append(av.Sorts, leaf)
 		})
 		return av
@@ -436,7 +442,7 @@ func (e *Engine) scalar(v Val) Sc {
 func (e *Engine) eqVal(a, b Val, t types.Type) string {
 	switch x := a.(type) {
 	case Sc, PtrVal, FuncVal:
-		return eq(e.scalar(a).T, e.scalar(b).T)
+		return e.sc.eqS(e.scalar(a).T, e.scalar(b).T)
 	case StructVal:
 		y := b.(StructVal)
 		st := under(t).(*types.Struct)
@@ -545,9 +551,9 @@ func idxTerms(path []pathElem) []string {
 func (e *Engine) loadLeaf(h Heap, p PtrVal, suffix, leaf string) string {
 	c := e.comp(p.Root, p.Path, suffix, leaf)
 	cur := e.heapGet(h, c)
-	t := sel(cur, p.Base)
+	t := e.sc.selIdx(cur, p.Base)
 	for _, ix := range idxTerms(p.Path) {
-		t = sel(t, ix)
+		t = e.sc.selIdx(t, ix)
 	}
 	r := e.sc.define("ld", leaf, t)
 	if leaf == SRef && cur == c.init && suffix != ".tag" {
@@ -571,6 +577,14 @@ func (e *Engine) storeLeaf(h Heap, p PtrVal, suffix, leaf, v string) {
 		return sto(arr, ixs[k], build(inner, k+1))
 	}
 	var nt string
+	if e.guard != "true" && !isBVLit(p.Base) {
+		// store on a possibly not executed path: keep the old value unless the block is reached
+		oldv := sel(cur, p.Base)
+		for _, ix := range ixs {
+			oldv = sel(oldv, ix)
+		}
+		v = ite(e.guard, v, oldv)
+	}
 	if len(ixs) == 0 {
 		nt = sto(cur, p.Base, v)
 	} else {
@@ -585,15 +599,22 @@ func (e *Engine) storeLeaf(h Heap, p PtrVal, suffix, leaf, v string) {
 // rawLoad selects component c at base and the given index terms (possibly fewer
 // than c.nidx, yielding an inner array).
 func (e *Engine) rawLoad(h Heap, c *component, base string, ixs []string) string {
-	t := sel(e.heapGet(h, c), base)
+	t := e.sc.selIdx(e.heapGet(h, c), base)
 	for _, ix := range ixs {
-		t = sel(t, ix)
+		t = e.sc.selIdx(t, ix)
 	}
 	return t
 }
 
 func (e *Engine) rawStore(h Heap, c *component, base string, ixs []string, v string) {
 	cur := e.heapGet(h, c)
+	if e.guard != "true" && !isBVLit(base) {
+		oldv := sel(cur, base)
+		for _, ix := range ixs {
+			oldv = sel(oldv, ix)
+		}
+		v = ite(e.guard, v, oldv)
+	}
 	var build func(arr string, k int) string
 	build = func(arr string, k int) string {
 		if k == len(ixs) {
@@ -632,9 +653,9 @@ func (e *Engine) load(h Heap, p PtrVal, t types.Type) Val {
 		}
 		// whole-array access shares the component used by element access
 		c := e.comp(p.Root, append(append([]pathElem{}, p.Path...), pathElem{field: -1}), "", es)
-		tm := sel(e.heapGet(h, c), p.Base)
+		tm := e.sc.selIdx(e.heapGet(h, c), p.Base)
 		for _, ix := range idxTerms(p.Path) {
-			tm = sel(tm, ix)
+			tm = e.sc.selIdx(tm, ix)
 		}
 		return Sc{e.sc.define("lda", arrSort(SI64, es), tm), arrSort(SI64, es)}
 	}
@@ -679,6 +700,13 @@ func (e *Engine) store(h Heap, p PtrVal, t types.Type, v Val) {
 		cur := e.heapGet(h, c)
 		ixs := idxTerms(p.Path)
 		val := e.scalar(v).T
+		if e.guard != "true" && !isBVLit(p.Base) {
+			oldv := sel(cur, p.Base)
+			for _, ix := range ixs {
+				oldv = sel(oldv, ix)
+			}
+			val = ite(e.guard, val, oldv)
+		}
 		var build func(arr string, k int) string
 		build = func(arr string, k int) string {
 			if k == len(ixs) {
@@ -731,7 +759,7 @@ func (e *Engine) store(h Heap, p PtrVal, t types.Type, v Val) {
 
 // elemPtr is the pointer to element i of slice s with element type et.
 func (e *Engine) elemPtr(s SliceVal, et types.Type, i string) PtrVal {
-	ix := e.sc.define("ix", SI64, app("bvadd", s.Off, i))
+	ix := e.sc.define("ix", SI64, e.sc.addS(s.Off, i))
 	return PtrVal{Base: s.Arr, Root: types.NewSlice(et), Path: []pathElem{{field: -1, idx: ix}}}
 }
 
